@@ -141,7 +141,8 @@ pub fn classify(streams: &[Vec<Step>]) -> (bool, Vec<&'static str>) {
     let mut big_incompressible = false;
     let mut binary = false;
     let mut no_final_newline = false;
-    let active = streams.iter().filter(|s| s.iter().any(|x| matches!(x, Step::W(_)))).count();
+    let active = streams.iter().filter(|s| s.iter().any(|x| matches!(x, Step::W(_) | Step::F { .. }))).count();
+    let mut volume = false;
     for s in streams {
         let mut in_line = false;
         for st in s {
@@ -162,6 +163,10 @@ pub fn classify(streams: &[Vec<Step>]) -> (bool, Vec<&'static str>) {
                     if in_line && *ms >= 500 {
                         mid_line_pause = true;
                     }
+                }
+                Step::F { total, line, .. } => {
+                    volume = true;
+                    in_line = *line == 0 || *total % *line != 0;
                 }
             }
         }
@@ -188,7 +193,10 @@ pub fn classify(streams: &[Vec<Step>]) -> (bool, Vec<&'static str>) {
     if active >= 3 {
         c.push("streams>=3");
     }
-    (mid_line_pause || long_line || binary || active >= 3, c)
+    if volume {
+        c.push("megabytes-within-one-flush-interval");
+    }
+    (mid_line_pause || long_line || binary || active >= 3 || volume, c)
 }
 
 static FILE_COUNTER: AtomicU64 = AtomicU64::new(0);
@@ -204,6 +212,7 @@ pub fn check_inproc(case: &Case, w: usize) -> CheckResult {
             .map(|st| match st {
                 Step::W(b) => monorail::verif::Step::Write(b.clone()),
                 Step::P(ms) => monorail::verif::Step::PauseMs(*ms),
+                Step::F { total, line, tag } => monorail::verif::Step::Write(crate::fill::fill_bytes(*total, *line, *tag)),
             })
             .collect();
         let name = if i % 2 == 0 { "stdout.zst" } else { "stderr.zst" };
@@ -394,6 +403,34 @@ pub fn many_streams() -> Vec<Case> {
     v
 }
 
+/// Megabytes written at once (far more than a pipe buffer, within one flush interval): as lines,
+/// and as one unterminated line; sizes just above 1, 2, 4, 8, 16 MiB (thorough: up to 64 MiB).
+pub fn volume_cases(thorough: bool) -> Vec<Case> {
+    let mib = 1usize << 20;
+    let sizes: Vec<usize> = if thorough {
+        vec![mib + 1, 2 * mib + 3, 4 * mib, 4 * mib + 4096, 8 * mib + 1, 16 * mib + 17, 32 * mib + 5, 64 * mib + 9]
+    } else {
+        vec![mib + 1, 4 * mib + 4096, 16 * mib + 17]
+    };
+    sizes
+        .into_iter()
+        .enumerate()
+        .map(|(k, total)| Case {
+            streams: vec![
+                vec![
+                    Step::W(b"before\n".to_vec()),
+                    Step::F { total, line: 100, tag: k as u32 },
+                    Step::P(800),
+                    Step::F { total: total / 2, line: 0, tag: 100 + k as u32 },
+                    Step::W(b"\nafter\n".to_vec()),
+                ],
+                vec![Step::F { total: total / 4 + 7, line: 61, tag: 200 + k as u32 }],
+            ],
+            rng_seed: 40 + k as u64,
+        })
+        .collect()
+}
+
 pub fn golden() -> Vec<Case> {
     vec![
         Case {
@@ -413,7 +450,7 @@ pub fn golden() -> Vec<Case> {
 }
 
 pub fn run(ctx: &mut Ctx) {
-    ctx.rule = "1-4 concurrent tasks = 2-8 streams (plus fixed in-process cases with 63-320 tasks), each a script of writes (short lines, partial lines, lines > 8 KiB and > 64 KiB, 130-600 KB of poorly compressible text or binary (several zstd blocks), no final newline, binary with NUL/CR/invalid UTF-8/escape bytes, bare \
+    ctx.rule = "1-4 concurrent tasks = 2-8 streams (plus fixed in-process cases with 63-320 tasks), each a script of writes (short lines, partial lines, lines > 8 KiB and > 64 KiB, 130-600 KB of poorly compressible text or binary (several zstd blocks), no final newline, binary with NUL/CR/invalid UTF-8/escape bytes, 1-16 MiB (thorough 64 MiB) at once, bare \
 newlines, multi-line chunks, CRLF, unicode) and pauses biased around the 500 ms flush interval (499/500/501/700/1000/1200, mid-line included). in-process: the real process_reader + Compressor through the capture hook \
 under tokio's paused clock with a seeded select order; real time: the same scripts executed by helper processes under `monorail run`, files located through the result document, `log show` parsed into blocks. \
 oracle: every stored .zst decodes to exactly the concatenation of that stream's writes; log show prints exactly one header per non-empty log followed by those bytes. \
@@ -427,7 +464,9 @@ non-trivial = a pause >= 500 ms inside a line, a line > 64 KiB, binary data, or 
     ctx.drive_all("many-streams-inproc", many_streams(), "255-640 streams on one compressor (around 128 and 256 streams per thread)", check_inproc);
     let n = ctx.n(3000, 200_000);
     ctx.drive("inproc", || strategy(4, 10), n, check_inproc);
+    ctx.drive_all("volume-inproc", volume_cases(ctx.thorough()), "1-16 MiB (thorough: 64 MiB) written at once, as 100-byte lines and as one unterminated line", check_inproc);
     ctx.drive_all("golden-cli", golden(), "golden regression cases (real time)", check_cli);
+    ctx.drive_all("volume-cli", volume_cases(ctx.thorough()), "1-16 MiB (thorough: 64 MiB) written at once by a helper process", check_cli);
     let n2 = ctx.n(80, 500);
     ctx.drive("cli", || strategy(3, 6), n2, check_cli);
 }
